@@ -1,0 +1,227 @@
+//go:build verif
+
+// Verified contracts of the NRI request handlers (pkg/resmgr/nri.go) and their helpers.
+//   C15: every handler is entered and left with the pipeline lock free, and every access to the cache,
+//        the policy, the controllers and the name map happens while it is held: the monitor ghost
+//        `unguarded` (verif_contracts.go) is still false on return.
+//   C14: `safety`: no nil dereference / index / type assertion panic for any event, including events that
+//        name unknown pods or containers (cache lookups may return (nil,false)).
+//   C05: handlers that let the policy change resources end with a drain of the pending changes into the reply
+//        (ghost model and the drain functions themselves: verif_contracts_c05.go).
+// Known failing obligations (genuine defects of the code, kept on purpose):
+//   C15 StopPodSandbox, Synchronize: never take the lock; RemovePodSandbox: cache lookup and hooks before Lock
+//       (post `!unguarded`);
+//   C14 StopPodSandbox, RemovePodSandbox: pod.GetContainers() on the nil result of a failed LookupPod (nil-invoke);
+//   C05 error replies of CreateContainer/UpdateContainer/StopContainer/Synchronize after the policy call do not drain.
+
+package resmgr
+
+//@ pure configured(p *nriPlugin) bool = p != nil && p.resmgr != nil && p.byname != nil && p.resmgr.agent != nil &&
+//@     p.resmgr.cache != nil && p.resmgr.policy != nil && p.resmgr.control != nil && p.resmgr.cfg != nil
+// the name map never holds a nil container
+//@ pure namesOK(p *nriPlugin) bool = forall k string :: k in p.byname ==> p.byname[k] != nil
+// the monitor is not set by code that runs with the lock held
+//@ pure guardedStep(before bool, after bool) bool = (before ==> after) && (sync.locked() && !before ==> !after)
+
+// ---- the name map: accessed only with the lock held ---------------------------------------------------------
+// (a real function cannot set the monitor ghost, hence a precondition: the lock is held, or the request has
+// already been flagged as unguarded)
+
+//@ func (*nriPlugin).mapNameToContainer safety
+//@   requires p != nil && p.byname != nil && ctr != nil && namesOK(p)
+//@   requires sync.locked() || unguarded
+//@   modifies p.byname[*]
+//@   ensures[C14] namesOK(p)
+
+//@ func (*nriPlugin).unmapName safety
+//@   requires p != nil && p.byname != nil && namesOK(p)
+//@   requires sync.locked() || unguarded
+//@   modifies p.byname[*]
+//@   ensures[C14] namesOK(p) && (result1 ==> result0 != nil)
+
+//@ func (*nriPlugin).unmapContainer safety
+//@   requires p != nil && p.byname != nil && ctr != nil && namesOK(p)
+//@   requires sync.locked() || unguarded
+//@   modifies p.byname[*]
+//@   ensures[C14] namesOK(p)
+
+//@ func (*nriPlugin).syncNamesToContainers safety
+//@   requires p != nil && p.byname != nil && namesOK(p)
+//@   requires forall i int :: 0 <= i && i < len(containers) ==> containers[i] != nil
+//@   requires sync.locked() || unguarded
+//@   modifies p.byname[*]
+//@   ensures[C14] namesOK(p)
+//@ loop 0 in (*nriPlugin).syncNamesToContainers at "range containers"
+//@   modifies p.byname[*]
+//@   invariant[C14] namesOK(p) && -1 <= rangeindex && rangeindex < len(containers)
+
+// ---- helpers that touch cache / policy / controllers ----------------------------------------------------------
+
+//@ func (*resmgr).updateTopologyZones safety
+//@   requires m != nil && m.policy != nil && m.agent != nil
+//@   modifies unguarded
+//@   ensures[C15] guardedStep(old(unguarded), unguarded)
+
+//@ func (*nriPlugin).setDefaultClasses safety
+//@   requires p != nil && p.resmgr != nil && p.resmgr.cfg != nil && c != nil
+
+// getPendingAdjustment / getPendingUpdates: see verif_contracts_c05.go
+
+//@ func (*nriPlugin).runPostAllocateHooks safety
+//@   requires p != nil && p.resmgr != nil && p.resmgr.cache != nil && p.resmgr.control != nil
+//@   modifies unguarded
+//@   ensures[C15] guardedStep(old(unguarded), unguarded)
+//@   ensures[C14] result == nil
+//@ loop 0 in (*nriPlugin).runPostAllocateHooks at "range m.cache.GetPendingContainers()"
+//@   invariant guardedStep(old(unguarded), unguarded)
+
+//@ func (*nriPlugin).runPostStartHooks safety
+//@   requires p != nil && p.resmgr != nil && p.resmgr.control != nil && c != nil
+//@   modifies unguarded
+//@   ensures[C15] guardedStep(old(unguarded), unguarded)
+
+//@ func (*nriPlugin).runPostReleaseHooks safety
+//@   requires p != nil && p.resmgr != nil && p.resmgr.cache != nil && p.resmgr.control != nil
+//@   requires forall i int :: 0 <= i && i < len(released) ==> released[i] != nil
+//@   modifies unguarded
+//@   ensures[C15] guardedStep(old(unguarded), unguarded)
+//@ loop 0 in (*nriPlugin).runPostReleaseHooks at "range released"
+//@   invariant guardedStep(old(unguarded), unguarded)
+//@ loop 1 in (*nriPlugin).runPostReleaseHooks at "range m.cache.GetPendingContainers()"
+//@   invariant guardedStep(old(unguarded), unguarded)
+
+//@ func (*nriPlugin).syncWithNRI safety
+//@   requires p != nil && p.resmgr != nil && p.resmgr.cache != nil && p.resmgr.agent != nil
+//@   ensures[C15] guardedStep(old(unguarded), unguarded)
+//@   ensures[C15] !sync.locked() ==> unguarded
+//@   ensures[C05] old(pendOK()) ==> pendOK()
+//@   ensures[C05] forall c cache.Container :: ureq[c] != nil ==> ureq[c] == old(ureq)[c]
+//@   ensures[C14] forall i int :: 0 <= i && i < len(result0) ==> result0[i] != nil
+//@ loop 2 in (*nriPlugin).syncWithNRI at "range ctrs"
+//@   invariant[C14] forall i int :: 0 <= i && i < len(allocated) ==> allocated[i] != nil
+// (the list after `allocated = append(allocated, c)` in terms of the list before; also evaluated, trivially, at the
+// textually identical line of the `exited` case)
+//@ assert[C14] in (*nriPlugin).syncWithNRI at "			released = append(released, c)": len(allocated) <= len($t68) + 1 &&
+//@     (len(allocated) == len($t68) + 1 ==> allocated[len($t68)] == c) && (forall k int :: 0 <= k && k < len($t68) ==> allocated[k] == $t68[k])
+
+// ---- the NRI handlers ---------------------------------------------------------------------------------------
+//
+// C05: between requests nothing is pending (drained(nil)); a handler that lets the policy change resources drains
+// the pending changes into its reply.  The clauses "retErr != nil ==> drained(..)" say the same for error replies
+// ("no change stays pending after the reply"): they are NOT expected to hold - an error return after the policy
+// call leaves the changes the policy made to other containers undelivered until the next request (DESIGN.md,
+// suspects of C05).
+
+// Configure touches neither cache nor policy.
+//@ func (*nriPlugin).Configure safety
+//@   requires p != nil
+//@   requires !sync.locked() && !unguarded
+//@   ensures[C15] !sync.locked()
+//@   ensures[C15] !unguarded
+
+//@ func (*nriPlugin).Synchronize safety
+//@   requires configured(p) && namesOK(p)
+//@   requires !sync.locked() && !unguarded
+//@   requires pendOK() && drained(nil)
+//@   ensures[C15] !sync.locked()
+//@   ensures[C15] !unguarded
+//@   ensures[C14] namesOK(p)
+//@   ensures[C05] pendOK()
+//@   ensures[C05] retErr == nil ==> drained(nil)
+//@   ensures[C05] retErr != nil ==> drained(nil)
+
+//@ func (*nriPlugin).RunPodSandbox safety
+//@   requires configured(p) && namesOK(p)
+//@   requires !sync.locked() && !unguarded
+//@   requires pendOK() && drained(nil)
+//@   ensures[C15] !sync.locked()
+//@   ensures[C15] !unguarded
+//@   ensures[C14] namesOK(p)
+//@   ensures[C05] pendOK()
+//@   ensures[C05] drained(nil)
+
+//@ func (*nriPlugin).StopPodSandbox safety
+//@   requires configured(p) && namesOK(p)
+//@   requires !sync.locked() && !unguarded
+//@   requires pendOK() && drained(nil)
+//@   ensures[C15] !sync.locked()
+//@   ensures[C15] !unguarded
+//@   ensures[C14] namesOK(p)
+//@   ensures[C05] pendOK()
+//@   ensures[C05] drained(nil)
+
+//@ func (*nriPlugin).RemovePodSandbox safety
+//@   requires configured(p) && namesOK(p)
+//@   requires !sync.locked() && !unguarded
+//@   requires pendOK() && drained(nil)
+//@   ensures[C15] !sync.locked()
+//@   ensures[C15] !unguarded
+//@   ensures[C14] namesOK(p)
+//@   ensures[C05] pendOK()
+//@   ensures[C05] drained(nil)
+
+//@ func (*nriPlugin).CreateContainer safety
+//@   requires configured(p) && namesOK(p) && container != nil
+//@   requires !sync.locked() && !unguarded
+//@   requires pendOK() && drained(nil)
+//@   ensures[C15] !sync.locked()
+//@   ensures[C15] !unguarded
+//@   ensures[C14] namesOK(p)
+//@   ensures[C05] pendOK()
+//@   # the reply drains everything except the container being created; its adjustment is its own; no update addresses it
+//@   ensures[C05] retErr == nil ==> drained(container)
+//@   ensures[C05] retErr == nil && adjust != nil ==> idOf(aowner(adjust)) == container.GetId()
+//@   ensures[C05] retErr == nil ==> forall k int :: 0 <= k && k < len(updates) ==> updates[k] != nil && !isSkip(container, owner(updates[k]))
+//@   ensures[C05] retErr == nil ==> forall i int, j int :: 0 <= i && i < j && j < len(updates) ==> owner(updates[i]) != owner(updates[j])
+//@   ensures[C05] retErr != nil ==> drained(container)
+
+// StartContainer cannot reply with updates: it relies on the policy not changing resources for a ContainerStarted
+// event (the `changes` result of HandleEvent is ignored); no drain is claimed here.
+//@ func (*nriPlugin).StartContainer safety
+//@   requires configured(p) && namesOK(p) && container != nil
+//@   requires !sync.locked() && !unguarded
+//@   requires pendOK() && drained(nil)
+//@   ensures[C15] !sync.locked()
+//@   ensures[C15] !unguarded
+//@   ensures[C14] namesOK(p)
+//@   ensures[C05] pendOK()
+
+//@ func (*nriPlugin).UpdateContainer safety
+//@   requires configured(p) && namesOK(p) && container != nil
+//@   requires !sync.locked() && !unguarded
+//@   requires pendOK() && drained(nil)
+//@   ensures[C15] !sync.locked()
+//@   ensures[C15] !unguarded
+//@   ensures[C14] namesOK(p)
+//@   ensures[C05] pendOK()
+//@   ensures[C05] retErr == nil ==> drained(nil)
+//@   ensures[C05] retErr == nil ==> forall i int, j int :: 0 <= i && i < j && j < len(updates) ==> owner(updates[i]) != owner(updates[j])
+//@   ensures[C05] retErr != nil ==> drained(nil)
+
+//@ func (*nriPlugin).StopContainer safety
+//@   requires configured(p) && namesOK(p) && container != nil
+//@   requires !sync.locked() && !unguarded
+//@   requires pendOK() && drained(nil)
+//@   ensures[C15] !sync.locked()
+//@   ensures[C15] !unguarded
+//@   ensures[C14] namesOK(p)
+//@   ensures[C05] pendOK()
+//@   # no update addresses the container that has just been stopped
+//@   ensures[C05] retErr == nil ==> drained(container)
+//@   ensures[C05] retErr == nil ==> forall k int :: 0 <= k && k < len(updates) ==> updates[k] != nil && !isSkip(container, owner(updates[k]))
+//@   ensures[C05] retErr != nil ==> drained(container)
+
+//@ func (*nriPlugin).RemoveContainer safety
+//@   requires configured(p) && namesOK(p) && container != nil
+//@   requires !sync.locked() && !unguarded
+//@   requires pendOK() && drained(nil)
+//@   ensures[C15] !sync.locked()
+//@   ensures[C15] !unguarded
+//@   ensures[C14] namesOK(p)
+//@   ensures[C05] pendOK()
+//@   ensures[C05] drained(nil)
+
+// slices.Clone copies the pod's container list element by element
+//@ assert[C14] in (*nriPlugin).StopPodSandbox at "m.agent.PurgePodResources(": len(released) == len($t39) && (forall k int :: 0 <= k && k < len(released) ==> released[k] == $t39[k])
+//@ assert[C14] in (*nriPlugin).RemovePodSandbox at "m.agent.PurgePodResources(": len(released) == len($t47) && (forall k int :: 0 <= k && k < len(released) ==> released[k] == $t47[k])
+
